@@ -69,14 +69,15 @@ const (
 
 // balloons contains configuration and runtime attributes of the balloons policy
 type balloons struct {
-	options   *policy.BackendOptions // configuration common to all policies
-	bpoptions *BalloonsOptions       // balloons-specific configuration
-	cch       cache.Cache            // nri-resource-policy cache
-	allowed   cpuset.CPUSet          // bounding set of CPUs we're allowed to use
-	reserved  cpuset.CPUSet          // system-/kube-reserved CPUs
-	freeCpus  cpuset.CPUSet          // CPUs to be included in growing or new ballons
-	ifreeCpus cpuset.CPUSet          // initially free CPUs before assigning any containers
-	cpuTree   *cpuTreeNode           // system CPU topology
+	options        *policy.BackendOptions // configuration common to all policies
+	bpoptions      *BalloonsOptions       // balloons-specific configuration
+	appliedOptions *BalloonsOptions       // last successfully applied configuration, as given (before defaults and built-in types are filled in)
+	cch            cache.Cache            // nri-resource-policy cache
+	allowed        cpuset.CPUSet          // bounding set of CPUs we're allowed to use
+	reserved       cpuset.CPUSet          // system-/kube-reserved CPUs
+	freeCpus       cpuset.CPUSet          // CPUs to be included in growing or new ballons
+	ifreeCpus      cpuset.CPUSet          // initially free CPUs before assigning any containers
+	cpuTree        *cpuTreeNode           // system CPU topology
 
 	reservedBalloonDef *BalloonDef // reserved balloon definition, pointer to bpoptions.BalloonDefs[x]
 	defaultBalloonDef  *BalloonDef // default balloon definition, pointer to bpoptions.BalloonDefs[y]
@@ -209,6 +210,7 @@ func (p *balloons) Setup(policyOptions *policy.BackendOptions) error {
 	if err := p.setConfig(bpoptions); err != nil {
 		return balloonsError("failed to create %s policy: %v", PolicyName, err)
 	}
+	p.appliedOptions = bpoptions.DeepCopy()
 	log.Debug("first effective configuration:\n%s\n", utils.DumpJSON(p.bpoptions))
 
 	return nil
@@ -1246,8 +1248,11 @@ func (p *balloons) Reconfigure(newCfg interface{}) error {
 		log.Debug("effective configuration:\n%s\n", utils.DumpJSON(p.bpoptions))
 	}()
 	newBalloonsOptions := balloonsOptions.DeepCopy()
-	if !changesBalloons(p.bpoptions, newBalloonsOptions) {
-		if !changesCpuClasses(p.bpoptions, newBalloonsOptions) {
+	// Compare the new options with the last applied ones as they were given:
+	// p.bpoptions holds the effective options (defaults and built-in balloon
+	// types filled in), which never equal a configuration as given.
+	if p.appliedOptions != nil && !changesBalloons(p.appliedOptions, newBalloonsOptions) {
+		if !changesCpuClasses(p.appliedOptions, newBalloonsOptions) {
 			log.Info("no configuration changes")
 		} else {
 			log.Info("configuration changes only on CPU classes")
@@ -1256,9 +1261,13 @@ func (p *balloons) Reconfigure(newCfg interface{}) error {
 			// must be kept in use, because each Balloon
 			// instance holds a direct reference to its
 			// BalloonDef.
-			for i := range p.bpoptions.BalloonDefs {
-				p.bpoptions.BalloonDefs[i].CpuClass = newBalloonsOptions.BalloonDefs[i].CpuClass
+			p.bpoptions.IdleCpuClass = newBalloonsOptions.IdleCpuClass
+			for _, newDef := range newBalloonsOptions.BalloonDefs {
+				if blnDef := p.balloonDefByName(newDef.Name); blnDef != nil {
+					blnDef.CpuClass = newDef.CpuClass
+				}
 			}
+			p.appliedOptions = newBalloonsOptions.DeepCopy()
 			// (Re)configures all CPUs in balloons.
 			if err := p.resetCpuClass(); err != nil {
 				log.Warnf("failed to reset CPU class: %v", err)
@@ -1271,10 +1280,18 @@ func (p *balloons) Reconfigure(newCfg interface{}) error {
 		}
 		return nil
 	}
+	effectiveOptions := p.bpoptions
 	if err := p.setConfig(newBalloonsOptions); err != nil {
 		log.Error("config update failed: %v", err)
+		if p.bpoptions != effectiveOptions {
+			// the update failed while it was being applied: whatever comes
+			// next (the revert to the previous configuration) must be
+			// applied in full
+			p.appliedOptions = nil
+		}
 		return err
 	}
+	p.appliedOptions = newBalloonsOptions.DeepCopy()
 	log.Info("config updated successfully")
 	// Release everything we know about, but re-admit only containers that
 	// still exist in the runtime: a stopped container never regains resources.
@@ -1363,8 +1380,17 @@ func (p *balloons) validateConfig(bpoptions *BalloonsOptions) error {
 }
 
 // setConfig takes new balloon configuration into use.
-func (p *balloons) setConfig(bpoptions *BalloonsOptions) error {
+func (p *balloons) setConfig(bpoptions *BalloonsOptions) (retErr error) {
 	bpoptions = bpoptions.DeepCopy()
+
+	// A configuration that is rejected before it is applied must leave the
+	// policy untouched: undo what preparation and validation change.
+	savedAllowed, savedReserved, savedOptions := p.allowed, p.reserved, p.bpoptions
+	defer func() {
+		if retErr != nil && p.bpoptions == savedOptions {
+			p.allowed, p.reserved = savedAllowed, savedReserved
+		}
+	}()
 
 	// Handle AvailableResources.cpus, if defined.
 	// Set p.allowed: CPUs available for the policy.
